@@ -41,6 +41,130 @@ pub const PROBES: &[Probe] = &[
     Probe { name: "inspect-raw-lines", ty: PType::Enum(&["true", "false"]), builtin: &[], extra_args: &[] },
 ];
 
+/// The wide-but-shallow part: every other option that can be set in gitconfig (the options handled by
+/// the `set_options!` list), observed at the `Opt` level by the in-process engine only (most of them
+/// are not part of `--show-config`).  Placements for these use custom features only.
+pub struct WideOpt {
+    pub probe: Probe,
+    /// name of the field of `cli::Opt`
+    pub field: &'static str,
+    /// the field is an `Option<String>`
+    pub optional: bool,
+}
+
+// generated once from src/cli.rs and the set_options! list of src/options/set.rs at the pinned commit (see DESIGN §13)
+pub const WIDE: &[WideOpt] = &[
+    WideOpt { probe: Probe { name: "blame-code-style", ty: PType::Enum(&["red", "blue bold", "green", "yellow italic", "magenta", "cyan ul", "white", "black bold"]), builtin: &[], extra_args: &[] }, field: "blame_code_style", optional: true },
+    WideOpt { probe: Probe { name: "blame-format", ty: PType::Str, builtin: &[], extra_args: &[] }, field: "blame_format", optional: false },
+    WideOpt { probe: Probe { name: "blame-palette", ty: PType::Enum(&["#111111 #222222", "#333333", "#444444 #555555 #666666", "#777777", "#888888 #999999", "#aaaaaa"]), builtin: &[], extra_args: &[] }, field: "blame_palette", optional: true },
+    WideOpt { probe: Probe { name: "blame-separator-format", ty: PType::Str, builtin: &[], extra_args: &[] }, field: "blame_separator_format", optional: false },
+    WideOpt { probe: Probe { name: "blame-separator-style", ty: PType::Enum(&["red", "blue bold", "green", "yellow italic", "magenta", "cyan ul", "white", "black bold"]), builtin: &[], extra_args: &[] }, field: "blame_separator_style", optional: true },
+    WideOpt { probe: Probe { name: "blame-timestamp-format", ty: PType::Str, builtin: &[], extra_args: &[] }, field: "blame_timestamp_format", optional: false },
+    WideOpt { probe: Probe { name: "blame-timestamp-output-format", ty: PType::Str, builtin: &[], extra_args: &[] }, field: "blame_timestamp_output_format", optional: true },
+    WideOpt { probe: Probe { name: "commit-decoration-style", ty: PType::Enum(&["red box", "blue ul", "green ol", "yellow box ul", "magenta ul ol", "cyan box", "white ul", "none"]), builtin: &[], extra_args: &[] }, field: "commit_decoration_style", optional: false },
+    WideOpt { probe: Probe { name: "commit-regex", ty: PType::Str, builtin: &[], extra_args: &[] }, field: "commit_regex", optional: false },
+    WideOpt { probe: Probe { name: "commit-style", ty: PType::Enum(&["red", "blue bold", "green", "yellow italic", "magenta", "cyan ul", "white", "black bold"]), builtin: &[], extra_args: &[] }, field: "commit_style", optional: false },
+    WideOpt { probe: Probe { name: "default-language", ty: PType::Enum(&["rs", "py", "js", "go", "rb", "c"]), builtin: &[], extra_args: &[] }, field: "default_language", optional: false },
+    WideOpt { probe: Probe { name: "diff-args", ty: PType::Enum(&["-U5", "-U7", "-U9", "--minimal", "-U11", "-U13"]), builtin: &[], extra_args: &[] }, field: "diff_args", optional: false },
+    WideOpt { probe: Probe { name: "file-copied-label", ty: PType::Str, builtin: &[], extra_args: &[] }, field: "file_copied_label", optional: false },
+    WideOpt { probe: Probe { name: "file-decoration-style", ty: PType::Enum(&["red box", "blue ul", "green ol", "yellow box ul", "magenta ul ol", "cyan box", "white ul", "none"]), builtin: &[], extra_args: &[] }, field: "file_decoration_style", optional: false },
+    WideOpt { probe: Probe { name: "file-removed-label", ty: PType::Str, builtin: &[], extra_args: &[] }, field: "file_removed_label", optional: false },
+    WideOpt { probe: Probe { name: "file-style", ty: PType::Enum(&["red", "blue bold", "green", "yellow italic", "magenta", "cyan ul", "white", "black bold"]), builtin: &[], extra_args: &[] }, field: "file_style", optional: false },
+    WideOpt { probe: Probe { name: "file-transformation", ty: PType::Enum(&["s/a/b/", "s/c/d/", "s/e/f/", "s/g/h/", "s/i/j/", "s/k/l/"]), builtin: &[], extra_args: &[] }, field: "file_regex_replacement", optional: true },
+    WideOpt { probe: Probe { name: "grep-context-line-style", ty: PType::Enum(&["red", "blue bold", "green", "yellow italic", "magenta", "cyan ul", "white", "black bold"]), builtin: &[], extra_args: &[] }, field: "grep_context_line_style", optional: true },
+    WideOpt { probe: Probe { name: "grep-file-style", ty: PType::Enum(&["red", "blue bold", "green", "yellow italic", "magenta", "cyan ul", "white", "black bold"]), builtin: &[], extra_args: &[] }, field: "grep_file_style", optional: false },
+    WideOpt { probe: Probe { name: "grep-header-decoration-style", ty: PType::Enum(&["red box", "blue ul", "green ol", "yellow box ul", "magenta ul ol", "cyan box", "white ul", "none"]), builtin: &[], extra_args: &[] }, field: "grep_header_decoration_style", optional: true },
+    WideOpt { probe: Probe { name: "grep-header-file-style", ty: PType::Enum(&["red", "blue bold", "green", "yellow italic", "magenta", "cyan ul", "white", "black bold"]), builtin: &[], extra_args: &[] }, field: "grep_header_file_style", optional: true },
+    WideOpt { probe: Probe { name: "grep-line-number-style", ty: PType::Enum(&["red", "blue bold", "green", "yellow italic", "magenta", "cyan ul", "white", "black bold"]), builtin: &[], extra_args: &[] }, field: "grep_line_number_style", optional: false },
+    WideOpt { probe: Probe { name: "grep-output-type", ty: PType::Enum(&["ripgrep", "classic"]), builtin: &[], extra_args: &[] }, field: "grep_output_type", optional: true },
+    WideOpt { probe: Probe { name: "grep-match-line-style", ty: PType::Enum(&["red", "blue bold", "green", "yellow italic", "magenta", "cyan ul", "white", "black bold"]), builtin: &[], extra_args: &[] }, field: "grep_match_line_style", optional: true },
+    WideOpt { probe: Probe { name: "grep-match-word-style", ty: PType::Enum(&["red", "blue bold", "green", "yellow italic", "magenta", "cyan ul", "white", "black bold"]), builtin: &[], extra_args: &[] }, field: "grep_match_word_style", optional: true },
+    WideOpt { probe: Probe { name: "grep-separator-symbol", ty: PType::Str, builtin: &[], extra_args: &[] }, field: "grep_separator_symbol", optional: false },
+    WideOpt { probe: Probe { name: "hunk-header-decoration-style", ty: PType::Enum(&["red box", "blue ul", "green ol", "yellow box ul", "magenta ul ol", "cyan box", "white ul", "none"]), builtin: &[], extra_args: &[] }, field: "hunk_header_decoration_style", optional: false },
+    WideOpt { probe: Probe { name: "hunk-header-file-style", ty: PType::Enum(&["red", "blue bold", "green", "yellow italic", "magenta", "cyan ul", "white", "black bold"]), builtin: &[], extra_args: &[] }, field: "hunk_header_file_style", optional: false },
+    WideOpt { probe: Probe { name: "hunk-header-line-number-style", ty: PType::Enum(&["red", "blue bold", "green", "yellow italic", "magenta", "cyan ul", "white", "black bold"]), builtin: &[], extra_args: &[] }, field: "hunk_header_line_number_style", optional: false },
+    WideOpt { probe: Probe { name: "hunk-header-style", ty: PType::Enum(&["red", "blue bold", "green", "yellow italic", "magenta", "cyan ul", "white", "black bold"]), builtin: &[], extra_args: &[] }, field: "hunk_header_style", optional: false },
+    WideOpt { probe: Probe { name: "hunk-label", ty: PType::Str, builtin: &[], extra_args: &[] }, field: "hunk_label", optional: false },
+    WideOpt { probe: Probe { name: "hyperlinks-commit-link-format", ty: PType::Str, builtin: &[], extra_args: &[] }, field: "hyperlinks_commit_link_format", optional: true },
+    WideOpt { probe: Probe { name: "hyperlinks-file-link-format", ty: PType::Str, builtin: &[], extra_args: &[] }, field: "hyperlinks_file_link_format", optional: false },
+    WideOpt { probe: Probe { name: "inline-hint-style", ty: PType::Enum(&["red", "blue bold", "green", "yellow italic", "magenta", "cyan ul", "white", "black bold"]), builtin: &[], extra_args: &[] }, field: "inline_hint_style", optional: false },
+    WideOpt { probe: Probe { name: "line-buffer-size", ty: PType::Int, builtin: &[], extra_args: &[] }, field: "line_buffer_size", optional: false },
+    WideOpt { probe: Probe { name: "line-fill-method", ty: PType::Enum(&["ansi", "spaces"]), builtin: &[], extra_args: &[] }, field: "line_fill_method", optional: true },
+    WideOpt { probe: Probe { name: "line-numbers-left-style", ty: PType::Enum(&["red", "blue bold", "green", "yellow italic", "magenta", "cyan ul", "white", "black bold"]), builtin: &[], extra_args: &[] }, field: "line_numbers_left_style", optional: false },
+    WideOpt { probe: Probe { name: "line-numbers-minus-style", ty: PType::Enum(&["red", "blue bold", "green", "yellow italic", "magenta", "cyan ul", "white", "black bold"]), builtin: &[], extra_args: &[] }, field: "line_numbers_minus_style", optional: false },
+    WideOpt { probe: Probe { name: "line-numbers-plus-style", ty: PType::Enum(&["red", "blue bold", "green", "yellow italic", "magenta", "cyan ul", "white", "black bold"]), builtin: &[], extra_args: &[] }, field: "line_numbers_plus_style", optional: false },
+    WideOpt { probe: Probe { name: "line-numbers-right-format", ty: PType::Str, builtin: &[], extra_args: &[] }, field: "line_numbers_right_format", optional: false },
+    WideOpt { probe: Probe { name: "line-numbers-right-style", ty: PType::Enum(&["red", "blue bold", "green", "yellow italic", "magenta", "cyan ul", "white", "black bold"]), builtin: &[], extra_args: &[] }, field: "line_numbers_right_style", optional: false },
+    WideOpt { probe: Probe { name: "line-numbers-zero-style", ty: PType::Enum(&["red", "blue bold", "green", "yellow italic", "magenta", "cyan ul", "white", "black bold"]), builtin: &[], extra_args: &[] }, field: "line_numbers_zero_style", optional: false },
+    WideOpt { probe: Probe { name: "map-styles", ty: PType::Enum(&["bold purple => red", "bold blue => green", "bold cyan => yellow", "bold red => blue", "italic red => cyan", "ul green => red"]), builtin: &[], extra_args: &[] }, field: "map_styles", optional: true },
+    WideOpt { probe: Probe { name: "max-syntax-highlighting-length", ty: PType::Int, builtin: &[], extra_args: &[] }, field: "max_syntax_length", optional: false },
+    WideOpt { probe: Probe { name: "max-line-length", ty: PType::Int, builtin: &[], extra_args: &[] }, field: "max_line_length", optional: false },
+    WideOpt { probe: Probe { name: "merge-conflict-begin-symbol", ty: PType::Str, builtin: &[], extra_args: &[] }, field: "merge_conflict_begin_symbol", optional: false },
+    WideOpt { probe: Probe { name: "merge-conflict-end-symbol", ty: PType::Str, builtin: &[], extra_args: &[] }, field: "merge_conflict_end_symbol", optional: false },
+    WideOpt { probe: Probe { name: "merge-conflict-ours-diff-header-decoration-style", ty: PType::Enum(&["red box", "blue ul", "green ol", "yellow box ul", "magenta ul ol", "cyan box", "white ul", "none"]), builtin: &[], extra_args: &[] }, field: "merge_conflict_ours_diff_header_decoration_style", optional: false },
+    WideOpt { probe: Probe { name: "merge-conflict-ours-diff-header-style", ty: PType::Enum(&["red", "blue bold", "green", "yellow italic", "magenta", "cyan ul", "white", "black bold"]), builtin: &[], extra_args: &[] }, field: "merge_conflict_ours_diff_header_style", optional: false },
+    WideOpt { probe: Probe { name: "merge-conflict-theirs-diff-header-decoration-style", ty: PType::Enum(&["red box", "blue ul", "green ol", "yellow box ul", "magenta ul ol", "cyan box", "white ul", "none"]), builtin: &[], extra_args: &[] }, field: "merge_conflict_theirs_diff_header_decoration_style", optional: false },
+    WideOpt { probe: Probe { name: "merge-conflict-theirs-diff-header-style", ty: PType::Enum(&["red", "blue bold", "green", "yellow italic", "magenta", "cyan ul", "white", "black bold"]), builtin: &[], extra_args: &[] }, field: "merge_conflict_theirs_diff_header_style", optional: false },
+    WideOpt { probe: Probe { name: "minus-empty-line-marker-style", ty: PType::Enum(&["red", "blue bold", "green", "yellow italic", "magenta", "cyan ul", "white", "black bold"]), builtin: &[], extra_args: &[] }, field: "minus_empty_line_marker_style", optional: false },
+    WideOpt { probe: Probe { name: "minus-emph-style", ty: PType::Enum(&["red", "blue bold", "green", "yellow italic", "magenta", "cyan ul", "white", "black bold"]), builtin: &[], extra_args: &[] }, field: "minus_emph_style", optional: false },
+    WideOpt { probe: Probe { name: "minus-non-emph-style", ty: PType::Enum(&["red", "blue bold", "green", "yellow italic", "magenta", "cyan ul", "white", "black bold"]), builtin: &[], extra_args: &[] }, field: "minus_non_emph_style", optional: false },
+    WideOpt { probe: Probe { name: "minus-style", ty: PType::Enum(&["red", "blue bold", "green", "yellow italic", "magenta", "cyan ul", "white", "black bold"]), builtin: &[], extra_args: &[] }, field: "minus_style", optional: false },
+    WideOpt { probe: Probe { name: "navigate-regex", ty: PType::Str, builtin: &[], extra_args: &[] }, field: "navigate_regex", optional: true },
+    WideOpt { probe: Probe { name: "paging", ty: PType::Enum(&["always", "never", "auto"]), builtin: &[], extra_args: &[] }, field: "paging_mode", optional: false },
+    WideOpt { probe: Probe { name: "parse-ansi", ty: PType::Bool, builtin: &[], extra_args: &[] }, field: "parse_ansi", optional: false },
+    WideOpt { probe: Probe { name: "plus-emph-style", ty: PType::Enum(&["red", "blue bold", "green", "yellow italic", "magenta", "cyan ul", "white", "black bold"]), builtin: &[], extra_args: &[] }, field: "plus_emph_style", optional: false },
+    WideOpt { probe: Probe { name: "plus-empty-line-marker-style", ty: PType::Enum(&["red", "blue bold", "green", "yellow italic", "magenta", "cyan ul", "white", "black bold"]), builtin: &[], extra_args: &[] }, field: "plus_empty_line_marker_style", optional: false },
+    WideOpt { probe: Probe { name: "plus-non-emph-style", ty: PType::Enum(&["red", "blue bold", "green", "yellow italic", "magenta", "cyan ul", "white", "black bold"]), builtin: &[], extra_args: &[] }, field: "plus_non_emph_style", optional: false },
+    WideOpt { probe: Probe { name: "plus-style", ty: PType::Enum(&["red", "blue bold", "green", "yellow italic", "magenta", "cyan ul", "white", "black bold"]), builtin: &[], extra_args: &[] }, field: "plus_style", optional: false },
+    WideOpt { probe: Probe { name: "relative-paths", ty: PType::Bool, builtin: &[], extra_args: &[] }, field: "relative_paths", optional: false },
+    WideOpt { probe: Probe { name: "true-color", ty: PType::Enum(&["always", "never", "auto"]), builtin: &[], extra_args: &[] }, field: "true_color", optional: false },
+    WideOpt { probe: Probe { name: "whitespace-error-style", ty: PType::Enum(&["red", "blue bold", "green", "yellow italic", "magenta", "cyan ul", "white", "black bold"]), builtin: &[], extra_args: &[] }, field: "whitespace_error_style", optional: false },
+    WideOpt { probe: Probe { name: "word-diff-regex", ty: PType::Str, builtin: &[], extra_args: &[] }, field: "tokenization_regex", optional: false },
+    WideOpt { probe: Probe { name: "wrap-left-symbol", ty: PType::Str, builtin: &[], extra_args: &[] }, field: "wrap_left_symbol", optional: false },
+    WideOpt { probe: Probe { name: "wrap-max-lines", ty: PType::Enum(&["3", "5", "7", "unlimited", "4", "6"]), builtin: &[], extra_args: &[] }, field: "wrap_max_lines", optional: false },
+    WideOpt { probe: Probe { name: "wrap-right-percent", ty: PType::Enum(&["20.0", "30.5", "44.0", "51.0", "12.5", "61.0"]), builtin: &[], extra_args: &[] }, field: "wrap_right_percent", optional: false },
+    WideOpt { probe: Probe { name: "wrap-right-prefix-symbol", ty: PType::Str, builtin: &[], extra_args: &[] }, field: "wrap_right_prefix_symbol", optional: false },
+    WideOpt { probe: Probe { name: "wrap-right-symbol", ty: PType::Str, builtin: &[], extra_args: &[] }, field: "wrap_right_symbol", optional: false },
+    WideOpt { probe: Probe { name: "zero-style", ty: PType::Enum(&["red", "blue bold", "green", "yellow italic", "magenta", "cyan ul", "white", "black bold"]), builtin: &[], extra_args: &[] }, field: "zero_style", optional: false },
+];
+
+
+pub fn probe_by_name(name: &str) -> &'static Probe {
+    PROBES.iter().find(|x| x.name == name).unwrap_or_else(|| &WIDE.iter().find(|w| w.probe.name == name).expect("probe").probe)
+}
+
+pub fn wide_by_name(name: &str) -> Option<&'static WideOpt> {
+    WIDE.iter().find(|w| w.probe.name == name)
+}
+
+/// Source kinds that involve no builtin feature (a builtin feature may set any option).
+pub const CUSTOM_KINDS: &[&str] = &["cli", "main", "envparam", "custom-cli-features", "custom-env-features", "custom-plusenv-features", "custom-main-features", "custom-envparam-features", "custom-child", "custom-grandchild"];
+
+/// Every single custom source kind and every unordered pair of them, for every wide option.
+pub fn lattice_wide(seed: u64) -> Vec<Placement> {
+    let mut out = Vec::new();
+    let mut n = 0u64;
+    for w in WIDE {
+        for (i, a) in CUSTOM_KINDS.iter().enumerate() {
+            for bk in CUSTOM_KINDS[i..].iter() {
+                n += 1;
+                let mut rng = Rng::new(mix(seed, &[tag("C13"), tag("wide"), n]));
+                let mut b = Builder::new(&w.probe);
+                let (first, second) = if n % 2 == 0 { (a, bk) } else { (bk, a) };
+                let ok1 = b.add(&mut rng, first);
+                let ok2 = b.add(&mut rng, second);
+                if !(ok1 || ok2) {
+                    continue;
+                }
+                b.p.no_gitconfig = n % 23 == 0;
+                b.p.sloppy_ws = n % 7 == 0;
+                out.push(b.p);
+            }
+        }
+    }
+    out
+}
+
 #[derive(Clone, Debug, Default, Serialize, Deserialize, PartialEq)]
 pub struct Section {
     pub value: Option<String>,
@@ -245,7 +369,12 @@ pub fn section_text(name: Option<&str>, probe: &str, s: &Section) -> String {
         t.push_str(&format!("\t{} = true\n", b));
     }
     if let Some(v) = &s.value {
-        t.push_str(&format!("\t{} = {}\n", probe, v));
+        // `#` and `;` start a comment in a git config file unless the value is quoted
+        if v.contains('#') || v.contains(';') {
+            t.push_str(&format!("\t{} = \"{}\"\n", probe, v));
+        } else {
+            t.push_str(&format!("\t{} = {}\n", probe, v));
+        }
     }
     if let Some(f) = &s.features {
         t.push_str(&format!("\tfeatures = {}\n", f.join(" ")));
@@ -293,7 +422,8 @@ pub struct Encoded {
 }
 
 pub fn encode(p: &Placement, config_path: Option<&str>) -> Encoded {
-    let probe = PROBES.iter().find(|x| x.name == p.probe).unwrap();
+    let probe = probe_by_name(&p.probe);
+    let is_wide = wide_by_name(&p.probe).is_some();
     let mut args: Vec<String> = Vec::new();
     let mut env: Vec<(String, String)> = Vec::new();
     if p.no_gitconfig {
@@ -319,6 +449,9 @@ pub fn encode(p: &Placement, config_path: Option<&str>) -> Encoded {
     if let Some(v) = &p.cli_value {
         if probe.ty == PType::Bool {
             args.push(format!("--{}", p.probe));
+        } else if is_wide {
+            // values may begin with a dash (--diff-args=-U5)
+            args.push(format!("--{}={}", p.probe, v));
         } else {
             args.push(format!("--{}", p.probe));
             args.push(v.clone());
@@ -403,13 +536,14 @@ pub struct Builder<'a> {
     probe: &'a Probe,
     n_custom: usize,
     n_val: usize,
+    enum_start: usize,
 }
 
 impl<'a> Builder<'a> {
     pub fn new(probe: &'a Probe) -> Self {
         let mut p = Placement::default();
         p.probe = probe.name.to_string();
-        Builder { p, probe, n_custom: 0, n_val: 0 }
+        Builder { p, probe, n_custom: 0, n_val: 0, enum_start: 0 }
     }
     fn value(&mut self, rng: &mut Rng) -> String {
         self.n_val += 1;
@@ -422,7 +556,13 @@ impl<'a> Builder<'a> {
             PType::Float => format!("0.{}{}", self.n_val, rng.below(9) + 1),
             PType::Int => format!("{}{}", self.n_val, rng.below(9) + 1),
             PType::Bool => (if rng.chance(1, 2) { "true" } else { "false" }).to_string(),
-            PType::Enum(words) => rng.pick(words).to_string(),
+            // successive sources get different words (from a random starting point)
+            PType::Enum(words) => {
+                if self.n_val == 1 {
+                    self.enum_start = rng.below(words.len() as u64) as usize;
+                }
+                words[(self.enum_start + self.n_val - 1) % words.len()].to_string()
+            }
         }
     }
     fn new_custom(&mut self) -> String {
